@@ -270,6 +270,37 @@ def check_guards(ck, repo: Repo, directions=DIRECTIONS):
             ck.ob(f"Float.{d}: successful return is dominated by isfinite", ok, f, r, construct=f"float:{d}:finite")
             if d == "coerce_input":
                 ck.ob("Float.coerce_input: bool is rejected", has_condition(fv, r, f"isinstance({subj}, bool)", "F"), f, r, construct="float:input:no-bool")
+    # ---- output conversions that are decided by a guard
+    if "coerce_output" in directions:
+        f = scalar_method(repo, "Int", "coerce_output")
+        fv = FuncView(f)
+        conv = [n for n in walk_no_nested(f.node) if isinstance(n, ast.Assign) and isinstance(n.value, ast.Call) and dotted(n.value.func) == "int" and unparse(n.value.args[0]) == "float_value"]
+        rs = [r for r in fv.raises() if conv and fv.dominated_by(r, conv[0]) and has_condition(fv, r, f"{unparse(conv[0].targets[0])} == float_value", "F")] if conv else []
+        ck.ob("Int.coerce_output: a numeric string is accepted only when its value is integral (int(x) must equal x: never truncated)", len(conv) == 1 and len(rs) == 1, f,
+              conv[0] if conv else f.node, construct="int:output:string-integral")
+        if conv:
+            ok = has_condition(fv, conv[0], "isinstance(value, str)", "T")
+            ck.ob("Int.coerce_output: the string conversion applies to strings only", ok, f, conv[0], construct="int:output:string-only")
+        f = scalar_method(repo, "String", "coerce_output")
+        fv = FuncView(f)
+        br = [r for r in fv.returns() if has_condition(fv, r, f"isinstance({f.positional_params[1]}, bool)", "T")]
+        from .q import ifexp_parts
+        ok = len(br) == 1 and ifexp_parts(br[0].value) == (f.positional_params[1], "'true'", "'false'")
+        ck.ob("String.coerce_output: booleans are spelled true / false (True -> \"true\")", ok, f, br[0] if br else f.node, construct="string:output:bool")
+        sr = [r for r in fv.returns() if unparse(r.value) == f.positional_params[1]]
+        ck.ob("String.coerce_output: a string is returned as is", len(sr) == 1 and has_condition(fv, sr[0], f"isinstance({f.positional_params[1]}, str)", "T"), f, sr[0] if sr else f.node,
+              construct="string:output:str")
+        f = scalar_method(repo, "Boolean", "coerce_output")
+        fv = FuncView(f)
+        cr = [r for r in fv.returns() if unparse(r.value) == f"bool({f.positional_params[1]})"]
+        ck.ob("Boolean.coerce_output: only finite numbers are converted with bool()", len(cr) == 1 and has_condition(fv, cr[0], f"isfinite({f.positional_params[1]})", "T"), f,
+              cr[0] if cr else f.node, construct="boolean:output:finite")
+    for d in [x for x in directions if x in ("coerce_output", "coerce_input")]:
+        f = scalar_method(repo, "ID", d)
+        fv = FuncView(f)
+        v = f.positional_params[1]
+        cr = [r for r in fv.returns() if unparse(r.value) == f"str(int({v}))"]
+        ck.ob(f"ID.{d}: only integers are spelled as decimal strings", len(cr) == 1 and has_condition(fv, cr[0], f"is_integer({v})", "T"), f, cr[0] if cr else f.node, construct=f"id:{d}:integer")
     # ---- String / Boolean input: exactly that type
     if "coerce_input" in directions:
         for scalar, t in (("String", "str"), ("Boolean", "bool")):
